@@ -18,7 +18,8 @@ ARRAY     coordinate arithmetic that the code performs on index *arrays*: the ex
             py    a Python int (weak scalar: stays in the array's type, OverflowError if unfit)
             np64  an element of an intp array / a NumPy int64 scalar (promotes)
 FACT      statements that must be present verbatim (a `(text, n)` pair: exactly n times); the given Coq
-          text is emitted when they are.
+          text is emitted when they are.  Several entries may carry the same name: alternatives, the
+          first that matches is emitted.
 """
 
 UT = "sparse/numba_backend/_utils.py"
@@ -34,6 +35,9 @@ FILES = {}
 
 CAN = "ext_can_store"
 MST = "ext_min_scalar_type"
+
+ROLL_GUARD = ("not all((can_store(a.coords.dtype, int(sh)) and can_store(a.coords.dtype, a.shape[ax] + int(sh)) "
+              "for sh, ax in zip(shift, axis, strict=True)))")
 
 PY2V = [
     dict(name="g_get_out_dtype", file=UT, func="get_out_dtype", params=["arr", "scalar"],
@@ -51,9 +55,8 @@ PY2V = [
     dict(name="g_concat_upcast", file=COMMON, func="concatenate", params=["coords", "m"], result=["coords"],
          selector=("if", "not can_store(coords.dtype, max(shape))"),
          extern={"coords.astype(np.min_scalar_type(max(shape)))": f"{MST} m"}),
-    # roll: the capacity guard
-    dict(name="g_roll_guard", file=COMMON, func="roll", params=[],
-         selector=("if", "not can_store(a.coords.dtype, max(a.shape + shift))")),
+    # roll: the capacity guard (body), addressed by the exact text of its test ...
+    dict(name="g_roll_guard", file=COMMON, func="roll", params=[], selector=("if", ROLL_GUARD)),
     # _from_coo: explicit idx_dtype guard, and the default choice
     dict(name="g_from_coo_guard", file=GCXS, func="_from_coo", params=[],
          selector=("if", "idx_dtype and (not can_store(idx_dtype, max(max(compressed_shape), x.nnz)))")),
@@ -69,6 +72,15 @@ PY2V = [
     dict(name="g_gcxs_stack_upcast", file=GCOMMON, func="stack", params=["indptr", "total_nnz"],
          result=["indptr"], selector=("if", "not can_store(indptr.dtype, total_nnz)"),
          extern={"indptr.astype(np.min_scalar_type(total_nnz))": f"{MST} total_nnz"}),
+]
+
+# ... and the per-axis condition inside that test: the element of the generator expression of the `if`
+# whose test has exactly the given text, translated by py2v's expression translator
+# (`can_store` -> ext_can_store, `int` -> py_int).
+GENEXPR = [
+    dict(name="g_roll_axis_ok", file=COMMON, func="roll", test=ROLL_GUARD, params=["dt", "sh", "n"],
+         calls={"can_store": CAN},
+         extern={"a.coords.dtype": "Ok dt", "a.shape[ax]": "Ok n"}),
 ]
 
 # stmt: exact text (ast.unparse) of the statement holding the expression.
@@ -125,7 +137,13 @@ FACT = [
       "        return np.array(scalar, dtype=dtype) == np.array(scalar)\n"
       "except (ValueError, OverflowError):\n    return False"],
      "Definition s_can_store (d : dty) (z : Z) : bool := fits d z."),
-    # _calc_counts_invidx returns both arrays in the dtype of `groups`
+    # _calc_counts_invidx: dtype of the returned offsets / counts.  Two alternatives (the first whose
+    # statements are all present is emitted): intp (current code), or the dtype of `groups` (finding D2,
+    # repaired by 5f3fb78 — if it comes back the definition below changes and reduce's theorem breaks)
+    ("s_counts_cast", CORE, "_calc_counts_invidx",
+     [("return (np.array(inv_idx, dtype=np.intp), np.array(counts, dtype=np.intp))", 2),
+      "inv_idx.append(0)", "counts.append(len(groups) - inv_idx[-1])"],
+     "Definition s_counts_cast (d : dty) (a : tarr) : tarr := astype (DInt i64) a."),
     ("s_counts_cast", CORE, "_calc_counts_invidx",
      [("return (np.array(inv_idx, dtype=groups.dtype), np.array(counts, dtype=groups.dtype))", 2),
       "inv_idx.append(0)", "counts.append(len(groups) - inv_idx[-1])"],
